@@ -361,7 +361,8 @@ func encStream(r *vh.Rng, n int, cv *vh.Cases, sum *vh.Summary, id *int) {
 			// the omitempty-focused corpus, with the memory shapes the emptiness tests treat differently
 			rt = []reflect.Type{reflect.TypeOf(FixOmit{}), reflect.TypeOf(FixOmitArr{}), reflect.TypeOf(FixOwnInfo{}),
 				reflect.TypeOf(FixBig{}), reflect.TypeOf(FixBigArr{}), reflect.TypeOf(FixBigAll{}),
-				reflect.TypeOf(FixPtrShaped{}), reflect.TypeOf(FixMapShaped{}), reflect.TypeOf(FixShapedOuter{}), reflect.TypeOf(FixShapedIn{})}[r.Intn(10)]
+				reflect.TypeOf(FixPtrShaped{}), reflect.TypeOf(FixMapShaped{}), reflect.TypeOf(FixShapedOuter{}), reflect.TypeOf(FixShapedIn{}),
+				reflect.TypeOf(FixPtrZero{}), reflect.TypeOf(FixPtrZeroAll{})}[r.Intn(12)]
 			quirks = rt.NumField() > 5 || r.Bool()
 		}
 		v := reflect.New(rt).Elem()
